@@ -151,4 +151,33 @@ CHECKS = {
         assumptions=["clients never allocate the same new fid from two requests at once (the property's proviso)",
                      "interleavings are controlled at file-system-call granularity plus whatever the Go scheduler adds; race freedom is 'no report on the explored runs'"],
     ),
+    "C06": dict(
+        pkg="server",
+        level="exploration",
+        groups=[G("^TestC06_Script$", 400, 3000)],
+        rule="scripts of 1..30 (thorough 50) steps against the real ServeConn with a scripted Handler and a raw reference-codec client: send (any of the 27 kinds except Tflush, "
+             "tags from a 16-value universe incl. 0/0xFFFE/0xFFFF, unique marker embedded in the message), complete (a parked handler chosen by index returns a generated R message "
+             "or an error, MessageRerror or plain), one third of the steps pipelined without waiting; 1/6 of the sends reuse the tag of a request whose handler is parked. "
+             "Both buffered and rendezvous (net.Pipe-like) connections; msize 400..1 MiB. Oracle: multiset of owed replies; every frame must match an owed reply exactly (tag, "
+             "content, marker), handler invoked exactly once per dispatched request with the message sent (inbound Tread count clamp applied), duplicate-tag request gets the "
+             "duplicate-tag error and no invocation, nothing extra at quiescence. Non-trivial = handlers completed out of arrival order, or a duplicate-tag step.",
+        require_classes=dict(quick=["duptag", "out_of_order_completion", "pipelined", "rendezvous", "buffered"], thorough=[]),
+        assumptions=["handler results fit in msize (the property's proviso)",
+                     "a tag is reused only when its state is certain (handler parked, or reply already read), which keeps the oracle exact",
+                     "'no reply within 10 s although the handler returned' counts as a missing reply (normal latency is microseconds)"],
+    ),
+    "C07": dict(
+        pkg="server",
+        level="exploration",
+        groups=[G("^TestC07_Script$", 600, 4000)],
+        rule="C06 machinery plus Tflush steps at every timing: target = a parked handler / a request whose handler has not been observed yet / an already answered tag / a never used tag; "
+             "the target's handler is released right before or right after the Tflush is written (racing it) or only later (late completion); handlers that honour cancellation and "
+             "handlers that ignore it; new requests deliberately reuse the tag of a flushed request whose handler is still running, and that handler then completes late. Oracle after the "
+             "flush acknowledgement was read: handler context done; no frame carrying the flushed request's marker ever arrives; the request reusing the tag gets exactly one reply with "
+             "its own marker; every Tflush gets exactly one reply. Non-trivial = a flush of an outstanding tag whose handler completes after the flush was sent.",
+        require_classes=dict(quick=["late_completion_after_flush", "reuse_while_running", "flush_parked_handler", "release_just_after_flush", "release_just_before_flush", "flush_answered", "flush_unused", "flush_before_handler_start"], thorough=[]),
+        assumptions=["a reply to the flushed request that arrives before the flush acknowledgement is allowed",
+                     "the type of the reply to a flush of a non-outstanding tag (Rflush or Rerror) is not asserted",
+                     "the exact instant at which a handler completes relative to the flush being processed is chosen by the Go scheduler; the generator forces both orders and the concurrent burst"],
+    ),
 }
